@@ -94,13 +94,21 @@ Hypothesis Htb : tables_ok tb = true.
 
 Lemma tb_parts :
   type_lists_ok tb = true /\ guards_ok tb = true /\ pixel_zeros_ok tb = true /\ no_raw_setter tb = true
-  /\ iadd_through_setters tb = true /\ eq_shape_ok tb = true /\ reads_guarded tb = true /\ resets_ok tb = true.
+  /\ iadd_through_setters tb = true /\ eq_shape_ok tb = true /\ reads_guarded tb = true /\ resets_ok tb = true
+  /\ base_iadd_on_copy tb = true.
 Proof.
   pose proof Htb as H. unfold tables_ok in H.
+  apply andb_prop in H. destruct H as [H H9].
   apply andb_prop in H. destruct H as [H H8]. apply andb_prop in H. destruct H as [H H7].
   apply andb_prop in H. destruct H as [H H6]. apply andb_prop in H. destruct H as [H H5].
   apply andb_prop in H. destruct H as [H H4]. apply andb_prop in H. destruct H as [H H3].
-  apply andb_prop in H. destruct H as [H1 H2]. auto 12.
+  apply andb_prop in H. destruct H as [H1 H2]. auto 14.
+Qed.
+
+Lemma base_iadd_kinds : b_iadd tb = BIOnCopy /\ b_add tb = BIOnCopy.
+Proof.
+  destruct tb_parts as [_ [_ [_ [_ [_ [_ [_ [_ H]]]]]]]]. unfold base_iadd_on_copy in H.
+  destruct (b_iadd tb), (b_add tb); try discriminate; auto.
 Qed.
 
 Lemma iadd_kinds : ph_iadd tb = IAddSetters /\ ph_add tb = IAddSetters.
@@ -203,19 +211,18 @@ Proof.
   unfold Inv. rewrite inv_with_content. apply arr_ok_base_of_validate; assumption.
 Qed.
 
-Lemma base_iadd_inv c a : is_photon (c_kind c) = false -> Inv c -> Inv (fst (base_iadd tb c a)).
+Lemma base_iadd_inv k c a : is_photon (c_kind c) = false -> Inv c -> Inv (fst (base_iadd tb k c a)).
 Proof.
   intros Hk Hc. unfold base_iadd. destruct (c_content c) as [cur|] eqn:Ec.
-  - destruct (is_xr a || is_xr cur); [exact Hc|].
+  - destruct (is_xr cur); [exact Hc|].
     unfold np_iadd.
-    destruct (negb (iadd_ok tb (a_dt cur) (a_dt a))); [exact Hc|].
-    destruct (negb (broadcastable (a_shape a) (a_shape cur))); [exact Hc|].
-    rewrite validate_base_with_data.
-    assert (Hok : Inv (with_content c (Some (with_data cur
-              (zip_add (a_dt cur) (a_data cur) (bcast_data (a_shape cur) (a_shape a) (a_data a))))))).
-    { unfold Inv. rewrite inv_with_content, arr_ok_base_with_data by exact Hk.
-      unfold Inv, inv_b in Hc. rewrite Ec in Hc. exact Hc. }
-    destruct (validate_base tb c cur); exact Hok.
+    destruct (negb (iadd_ok tb (a_dt cur) (a_dt (as_numpy a)))); [exact Hc|].
+    destruct (negb (broadcastable (a_shape (as_numpy a)) (a_shape cur))); [exact Hc|].
+    match goal with |- context [validate_base tb c ?r] => destruct (validate_base tb c r) eqn:Ev end; simpl.
+    + destruct k; [|exact Hc].
+      unfold Inv. rewrite inv_with_content, arr_ok_base_with_data by exact Hk.
+      unfold Inv, inv_b in Hc. rewrite Ec in Hc. exact Hc.
+    + unfold Inv. rewrite inv_with_content. apply arr_ok_base_of_validate; assumption.
   - apply base_set_inv; assumption.
 Qed.
 
@@ -458,16 +465,16 @@ Proof.
   apply accepted_set; assumption.
 Qed.
 
-Lemma base_iadd_accepted c a :
-  is_photon (c_kind c) = false -> accepted tb c = true -> accepted tb (fst (base_iadd tb c a)) = true.
+Lemma base_iadd_accepted k c a :
+  is_photon (c_kind c) = false -> accepted tb c = true -> accepted tb (fst (base_iadd tb k c a)) = true.
 Proof.
   intros Hk Hr. unfold base_iadd. destruct (c_content c) as [cur|] eqn:Ec; [|apply base_set_accepted; assumption].
-  destruct (is_xr a || is_xr cur); [exact Hr|].
-  destruct (np_iadd tb cur a) as [cur'|e'] eqn:E; [|exact Hr].
+  destruct (is_xr cur); [exact Hr|].
+  destruct (np_iadd tb cur (as_numpy a)) as [cur'|e'] eqn:E; [|exact Hr].
   destruct (np_iadd_with_data _ _ _ E) as [d ->].
-  assert (Hv : validate_base tb c (with_data cur d) = None).
-  { rewrite validate_base_with_data. eapply accepted_base; eauto. }
-  rewrite Hv. simpl. apply accepted_set; assumption.
+  destruct (validate_base tb c (iadd_result (with_data cur d) a)) eqn:Ev; simpl.
+  - destruct k; [|exact Hr]. apply accepted_set; [exact Hk|]. rewrite validate_base_with_data. eapply accepted_base; eauto.
+  - apply accepted_set; assumption.
 Qed.
 
 Lemma validate_zeros c : c_kind c = Pixel -> validate_base tb c (zeros_f64 (c_rows c) (c_cols c)) = None.
@@ -485,7 +492,7 @@ Lemma empty_kinds :
   /\ d_empty tb Photon = DAlways /\ d_empty tb Signal = DAlways /\ d_empty tb Image = DAlways
   /\ d_empty tb Pixel <> DNever /\ mkid_phase_zero tb = true.
 Proof.
-  destruct tb_parts as [_ [_ [_ [_ [_ [_ [_ H]]]]]]]. unfold resets_ok in H. simpl in H.
+  destruct tb_parts as [_ [_ [_ [_ [_ [_ [_ [H _]]]]]]]]. unfold resets_ok in H. simpl in H.
   destruct (empty_of tb Photon), (empty_of tb Signal), (empty_of tb Image), (empty_of tb Phase); try discriminate.
   destruct (d_empty tb Photon), (d_empty tb Signal), (d_empty tb Image); try discriminate.
   destruct (mkid_phase_zero tb); [|destruct (d_empty tb Pixel); discriminate].
@@ -651,18 +658,18 @@ Proof.
 Qed.
 
 Lemma base_iadd_raise c a c' e :
-  is_photon (c_kind c) = false -> accepted tb c = true -> base_iadd tb c a = (c', Raise e) -> c' = c.
+  base_iadd tb BIOnCopy c a = (c', Raise e) -> c' = c.
 Proof.
-  intros Hk Hr. unfold base_iadd. destruct (c_content c) as [cur|] eqn:Ec; [|apply base_set_raise].
-  destruct (is_xr a || is_xr cur); [intro H; inversion H|].
-  destruct (np_iadd tb cur a) as [cur'|e'] eqn:E; [|intro H; inversion H; reflexivity].
-  destruct (np_iadd_with_data _ _ _ E) as [d ->].
-  rewrite validate_base_with_data, (accepted_base c Hk Hr cur Ec). intro H; inversion H.
+  unfold base_iadd. destruct (c_content c) as [cur|] eqn:Ec; [|apply base_set_raise].
+  destruct (is_xr cur); [intro H; inversion H|].
+  destruct (np_iadd tb cur (as_numpy a)) as [cur'|e'] eqn:E; [|intro H; inversion H; reflexivity].
+  destruct (validate_base tb c (iadd_result cur' a)); intro H; inversion H; reflexivity.
 Qed.
 
 Theorem step_raise_preserves c o c' e : accepted tb c = true -> step tb c o = (c', Raise e) -> c' = c.
 Proof.
-  intros Hr. destruct iadd_kinds as [Ki Ka]. destruct (is_photon (c_kind c)) eqn:Hk.
+  intros Hr. destruct iadd_kinds as [Ki Ka]. destruct base_iadd_kinds as [Bi Ba].
+  destruct (is_photon (c_kind c)) eqn:Hk.
   - destruct o as [a|a|oa|a|a| | | |o'|o'|o'|reset|]; simpl; rewrite ?Hk, ?Ki, ?Ka.
     + apply photon_set2d_raise.
     + apply photon_set3d_raise.
@@ -685,8 +692,8 @@ Proof.
     + apply base_set_raise.
     + intro H; inversion H.
     + destruct oa; [apply base_set_raise | destruct (upd_none tb (c_kind c)); intro H; inversion H].
-    + apply base_iadd_raise; assumption.
-    + apply base_iadd_raise; assumption.
+    + rewrite Bi. apply base_iadd_raise.
+    + rewrite Ba. apply base_iadd_raise.
     + intro H; inversion H.
     + intro H; inversion H; reflexivity.
     + intro H; inversion H.
